@@ -51,7 +51,10 @@ def invoke (R : RunEnv) (g : G) (ctx : Ctx) : Nat → Lx → World → List RRes
     | (.ok v lx', W') =>
       let (rest, W'') := invoke R g ctx k lx' W'
       (.ok v lx' :: rest, W'')
-    | (r, W') => ([r], W')
+    | (r, W') =>
+      -- after a failure the next invocation starts again from the same lexer
+      let (rest, W'') := invoke R g ctx k lx W'
+      (r :: rest, W'')
 
 def runCase (c : Case) : Outcome :=
   let R : RunEnv := ⟨lexEnv c.cfg c.text, c.text⟩
@@ -70,7 +73,7 @@ def showOutcome (c : Case) (o : Outcome) : String :=
   else if o.results.any (fun r => match r with | .fuel => true | _ => false) then "timeout"
   else
     "&".intercalate (o.results.map (showRes R)) ++ "|sink=[" ++ ",".intercalate (o.world.log.map GWire.showErr) ++
-    "]|probes=[" ++ ",".intercalate o.world.probes ++ "]|fmtpanics=0"
+    "]|probes=[" ++ "~".intercalate o.world.probes ++ "]|fmtpanics=0"
 
 /-- Oracles are added per family in Fam/Oracles.lean; here: correspondence only. -/
 def run (fields : List String) : String × String :=
